@@ -683,3 +683,50 @@ func ruleHolesResult(c *Ctx, r *R) {
 		r.undecided("unresolved:sites", "-", "UNRESOLVED: no hasProperty branch feeding newArrayOf found")
 	}
 }
+
+func init() {
+	register(&Rule{ID: "REDUCE-kpresent", Props: []string{"C08"}, Min: 2,
+		Doc: "G (must-assign): ES5 15.4.4.21 / 15.4.4.22 step 8 - without an initial value the accumulator is the first element that is present, and if none is (kPresent false: an empty receiver or one that consists of holes) a TypeError is thrown. In the functions bound to reduce and reduceRight the accumulator that is returned or handed to the callback is never the variable's zero value: the phi closure of that operand contains no uninitialised Value constant, i.e. every exit of the search for the first present element either assigned it or throws",
+		Run: ruleReduceKPresent})
+}
+
+func ruleReduceKPresent(c *Ctx, r *R) {
+	n := 0
+	for _, fn := range c.AllSrcFuncs("") {
+		if fn.Parent() != nil || (fn.Name() != "builtinArrayReduce" && fn.Name() != "builtinArrayReduceRight") {
+			continue
+		}
+		n++
+		bad := ""
+		var closure func(v ssa.Value, seen map[ssa.Value]bool) bool // true if a zero Value constant is in the closure
+		closure = func(v ssa.Value, seen map[ssa.Value]bool) bool {
+			if seen[v] {
+				return false
+			}
+			seen[v] = true
+			switch x := v.(type) {
+			case *ssa.Const:
+				return x.Value == nil && typeIs(x.Type(), ottoPath, "Value")
+			case *ssa.Phi:
+				for _, e := range x.Edges {
+					if closure(e, seen) {
+						return true
+					}
+				}
+			}
+			return false
+		}
+		for _, b := range fn.Blocks {
+			if ret, ok := b.Instrs[len(b.Instrs)-1].(*ssa.Return); ok && len(ret.Results) == 1 {
+				if closure(ret.Results[0], map[ssa.Value]bool{}) {
+					bad = c.Pos(ret.Pos())
+				}
+			}
+		}
+		r.check(bad == "", fn.Name(), c.Pos(fn.Pos()), "the returned accumulator is assigned on every path",
+			fmt.Sprintf("%s can return its accumulator unassigned (return at %s): when no element of the receiver is present and no initial value is given it yields undefined instead of throwing TypeError (`[,,].reduce(f)`, `new Array(5).reduce(f)`)", fn.Name(), bad))
+	}
+	if n < 2 {
+		r.undecided("unresolved:reduce", "-", "UNRESOLVED: builtinArrayReduce / builtinArrayReduceRight")
+	}
+}
